@@ -5,3 +5,4 @@ import PvModel.Props.C20
 #print axioms Pv.C20_bind
 #print axioms Pv.C20_structural
 #print axioms Pv.C20_force
+#print axioms Pv.C20_force_fields
